@@ -303,6 +303,10 @@ fn free_port() -> u16 {
 		match TcpListener::bind("127.0.0.1:0").and_then(|l| l.local_addr()) {
 			Ok(a) => {
 				let mut g = USED.lock().unwrap();
+				if g.len() > 4000 {
+					// only recent hand-outs matter (the window between choosing a port and the bind)
+					g.drain(..2000);
+				}
 				if !g.contains(&a.port()) {
 					g.push(a.port());
 					return a.port();
@@ -318,12 +322,19 @@ fn free_port() -> u16 {
 /// of the LISTEN entry in /proc/net/tcp is among the process's descriptors.) Another process may
 /// have taken the port between choosing it and the child's bind.
 fn child_listens(pid: u32, port: u16) -> bool {
-	let Ok(table) = std::fs::read_to_string("/proc/net/tcp") else { return true };
+	use std::io::BufRead;
+	let Ok(table) = std::fs::File::open("/proc/net/tcp") else { return true };
 	let want = format!("0100007F:{port:04X}");
 	let mut inodes = vec![];
-	for line in table.lines().skip(1) {
+	// listening sockets are listed first; the table may continue with hundreds of thousands of
+	// TIME_WAIT entries (one connection per request), which are not read
+	for line in std::io::BufReader::with_capacity(4096, table).lines().skip(1) {
+		let Ok(line) = line else { break };
 		let f: Vec<&str> = line.split_whitespace().collect();
-		if f.len() > 9 && f[1] == want && f[3] == "0A" {
+		if f.len() <= 9 || f[3] != "0A" {
+			break;
+		}
+		if f[1] == want {
 			inodes.push(f[9].to_string());
 		}
 	}
@@ -433,7 +444,12 @@ impl Server {
 	/// healthy afterwards; otherwise the run ends with exit 2 (the fixture is broken, nothing can
 	/// be said about the property).
 	pub fn exchange(&mut self, raw: &[u8]) -> Exchange {
-		match request(self.port, raw) {
+		let first = match request(self.port, raw) {
+			// slow is not dropped: on a loaded machine give the same request a long second chance
+			Err(TransportError::Timeout { .. }) => request_with_timeout(self.port, raw, Duration::from_secs(40)),
+			other => other,
+		};
+		match first {
 			Ok(r) => Exchange::Response(r),
 			Err(e) => {
 				if self.is_healthy() {
